@@ -1212,6 +1212,12 @@ func serEntryOK(T []uint64, off int, ntype Tag, vb []byte) bool {
 //@   invariant 1 tagbuf: 0 <= tagsOff && tagsOff <= tagBufSize && 0 <= off
 //@   assertat `s.tagsBuf[tagsOff] = uint8(ntype)` entry: serEntryOK(pj.Tape, off, ntype, s.valuesBuf)
 
+// Package-level variables, reviewed for C20 / C15 (read-only tables, error values, sync objects, codec pools whose
+// objects are reset after Get and not used after Put, the Once-initialised shared zstd decoder used only through
+// DecodeAll). Any other package-level variable is state shared by every parser and serializer of the process.
+// Decided by the frame engine (globals#reviewed-set).
+//@ globals ErrPathNotFound TagToType detailedPowersOfTen initSerializerOnce isNumberRune jsonMarkupTable s2FastWriters s2Readers s2Writers shouldEscape structuralOrWhitespaceNegated tagOpenToClose valToHex wantFeatures zDec zEncFast
+
 // Serialized tape format (documented in Serialize): per tag the number of value bytes in the values stream and the
 // number of tape words the entry occupies. tagFloatWithFlag is 'e'. Decided by the frame engine (codec#widths-agree):
 // Serialize appends / consumes and Deserialize reads / produces exactly these amounts for every tag, all other tags
